@@ -138,7 +138,7 @@ def mk_app(cx, fib=None, face=None):
 @contract
 class on_interest(Contract):
     fn = appv2.NDNApp._on_interest
-    props = ('C04', 'C05', 'C10')
+    props = ('C04', 'C05', 'C10', 'C06')
     doc = ('_on_interest: the only handler that can be invoked is the one stored at the longest attached prefix (assumed '
            'pygtrie contract), at most once, none when nothing matches; an Interest with ApplicationParameters or a '
            'signature reaches it only if the parameters digest is right AND a validator exists AND it answered PASS / '
